@@ -374,48 +374,60 @@ func Run(args []string) *rep.Report {
 		}
 		// gossip sender: the message a subscriber on another host receives decodes to the message that was sent
 		if perr == nil && tc.M.Extra != "atcap" && len(input) < 512<<10 {
-			// two announcements back to back through the same sender, read afterwards: each arrives as it was sent
-			pair := []message.Message{build(tc.M, idx), build(tc.M, idx+100000)}
-			var serr error
-			for _, m := range pair {
-				if serr = psnd.Send(context.Background(), m); serr != nil {
-					bad("p2p-sender-error", tc, serr.Error())
-					break
+			// two announcements back to back through the same sender, read afterwards: each arrives once, as it was sent
+			// (gossipsub validates concurrently, so they may arrive in either order)
+			attempt := func(salt int) (lost int, problem string) {
+				pair := []message.Message{build(tc.M, idx+salt), build(tc.M, idx+salt+100000)}
+				for _, m := range pair {
+					if err := psnd.Send(context.Background(), m); err != nil {
+						return 0, "send: " + err.Error()
+					}
 				}
-			}
-			// gossipsub validates concurrently, so the two may arrive in either order: each must arrive once, as it was sent
-			arrived := map[string]int{}
-			for k := 0; serr == nil && k < len(pair); k++ {
-				ctx, cancel := context.WithTimeout(context.Background(), 3*time.Second)
-				pm, err := psub.Next(ctx)
-				cancel()
-				execs++
-				p2pSent++
-				var got message.Message
-				switch {
-				case err != nil:
-					r.Inconclusive++
-					r.SetExtra("p2p_sender_lost", err.Error())
-					arrived["lost"]++
-				case got.UnmarshalCBOR(bytes.NewReader(pm.Data)) != nil:
-					bad("p2p-sender-wire", tc, "the subscriber cannot decode what the gossip sender published")
-					arrived["undecodable"]++
-				default:
-					var sent *message.Message
-					for n := range pair {
-						if pair[n].Cid == got.Cid {
-							sent = &pair[n]
+				arrived := map[string]int{}
+				for k := 0; k < len(pair); k++ {
+					ctx, cancel := context.WithTimeout(context.Background(), 2*time.Second)
+					pm, err := psub.Next(ctx)
+					cancel()
+					execs++
+					p2pSent++
+					var got message.Message
+					switch {
+					case err != nil:
+						lost++
+					case got.UnmarshalCBOR(bytes.NewReader(pm.Data)) != nil:
+						return lost, "the subscriber cannot decode what the gossip sender published"
+					default:
+						var sent *message.Message
+						for n := range pair {
+							if pair[n].Cid == got.Cid {
+								sent = &pair[n]
+							}
+						}
+						arrived[got.Cid.String()]++
+						if sent == nil || !same(project(&got), tc.M) || got.OrigPeer != sent.OrigPeer || pm.GetFrom() != pe.H1.ID() {
+							return lost, fmt.Sprintf("two announcements sent back to back: the subscriber decodes %+v (cid %s) from %s; sent %+v with cids %s and %s by %s",
+								project(&got), got.Cid, pm.GetFrom(), tc.M, pair[0].Cid, pair[1].Cid, pe.H1.ID())
 						}
 					}
-					arrived[got.Cid.String()]++
-					if sent == nil || !same(project(&got), tc.M) || got.OrigPeer != sent.OrigPeer || pm.GetFrom() != pe.H1.ID() {
-						bad("p2p-sender-wire", tc, fmt.Sprintf("two announcements sent back to back: the subscriber decodes %+v (cid %s) from %s; sent %+v with cids %s and %s by %s",
-							project(&got), got.Cid, pm.GetFrom(), tc.M, pair[0].Cid, pair[1].Cid, pe.H1.ID()))
-					}
+				}
+				if lost == 0 && (arrived[pair[0].Cid.String()] != 1 || arrived[pair[1].Cid.String()] != 1) {
+					return 0, fmt.Sprintf("two announcements sent back to back did not arrive once each: %v", arrived)
+				}
+				return lost, ""
+			}
+			lost, problem := attempt(0)
+			if lost > 0 && problem == "" {
+				// confirm before alarm: a message that does not arrive between two connected hosts on loopback
+				if lost2, problem2 := attempt(500000); lost2 > 0 && problem2 == "" {
+					problem = fmt.Sprintf("of two announcements sent back to back %d did not arrive at the subscriber (twice in a row)", lost2)
+				} else {
+					r.Inconclusive++
+					r.SetExtra("p2p_sender_lost_once", 1)
+					problem = problem2
 				}
 			}
-			if serr == nil && arrived["lost"] == 0 && arrived["undecodable"] == 0 && (arrived[pair[0].Cid.String()] != 1 || arrived[pair[1].Cid.String()] != 1) {
-				bad("p2p-sender-wire", tc, fmt.Sprintf("two announcements sent back to back did not arrive once each: %v", arrived))
+			if problem != "" {
+				bad("p2p-sender-wire", tc, problem)
 			}
 		}
 		// HTTP sender, CBOR and JSON: what is put on the wire is what a receiver decodes
